@@ -197,4 +197,32 @@ theorem wwwFromHeader_safe (s : Str) : Safe (wwwFromHeader s) := by
     obtain ⟨a, ha⟩ := authRest_safe (pyLower sc) (strip r)
     rw [ha]; exact ⟨_, rfl⟩
 
+/-! ### the descriptor layer -/
+
+theorem headerProperty_safe {α : Type} (load : Str → Except String α) (dflt : α) (hdr : Option Str)
+    (h : ∀ v, OnlyRaises ["ValueError", "TypeError"] (load v)) : Safe (headerProperty load dflt hdr) := by
+  unfold headerProperty
+  cases hdr with
+  | none => exact ⟨_, rfl⟩
+  | some v => exact catching_safe (h v)
+
+theorem onlyRaises_mono {α : Type} {c1 c2 : List String} {x : Except String α}
+    (h : OnlyRaises c1 x) (hs : ∀ e ∈ c1, e ∈ c2) : OnlyRaises c2 x :=
+  fun e he => hs e (h e he)
+
+theorem requestMaxForwards_safe (hdr : Option Str) : Safe (requestMaxForwards hdr) :=
+  headerProperty_safe _ _ _ (fun v =>
+    onlyRaises_mono (onlyRaises_map _ (pyInt_onlyRaises v)) (by intro e he; simp at he; subst he; simp))
+
+theorem getContentLength_safe (cl te : Option Str) : Safe (getContentLength cl te) := by
+  unfold getContentLength
+  split
+  · exact ⟨_, rfl⟩
+  · cases cl with
+    | none => exact ⟨_, rfl⟩
+    | some v => exact catching_safe (onlyRaises_map _ (plainInt_onlyRaises v))
+
+theorem requestAcrh_safe (hdr : Option Str) : Safe (requestAccessControlRequestHeaders hdr) :=
+  headerProperty_safe _ _ _ (fun v e he => by simp at he)
+
 end Wz.Http
